@@ -298,6 +298,18 @@ func c07Dense(maxOV int64, emit func(c07Case)) {
 }
 
 func c07Structured(emit func(c07Case)) {
+	// a cliff: start == end, everything locked up to and including that instant (Dur 0, now before it)
+	for _, el := range []int64{-50, -1, 0} {
+		for _, ov := range []int64{1, 9, 100} {
+			for _, a := range []int64{1, ov / 2, ov} {
+				if a > 0 {
+					emit(c07Case{OV: []string{fmt.Sprint(ov)}, Dur: 0, Elapsed: el, Amount: []string{fmt.Sprint(a)}, Op: "split", Family: "cliff"})
+				}
+			}
+			emit(c07Case{OV: []string{fmt.Sprint(ov), "7"}, Dur: 0, Elapsed: el, Op: "move", Family: "cliff"})
+			emit(c07Case{OV: []string{fmt.Sprint(ov), "7"}, Dur: 0, Elapsed: el, Op: "movedenoms:2", Family: "cliff"})
+		}
+	}
 	// two denominations, delegations, chains
 	for _, dur := range []int64{7, 1000} {
 		for _, el := range elapsedGrid(dur) {
